@@ -42,7 +42,8 @@ def gen_class(lang, name, n_pub, n_priv, extras, blank, comment, start_line, sty
         cmt = "#"
     elif lang in ("typescript", "javascript"):
         L.append({"plain": f"class {name} {{", "abstract": f"abstract class {name} {{", "exported": f"export class {name} {{",
-                  "hash-private": f"class {name} {{", "modifier-private": f"class {name} {{"}[style if lang == "typescript" or style == "hash-private" else "plain"])
+                  "hash-private": f"class {name} {{", "modifier-private": f"class {name} {{",
+                  "class-expression": f"const {name} = class {{"}[style if lang == "typescript" or style in ("hash-private", "class-expression") else "plain"])
         L.append("  x = 1;")
         if comment:
             L.append("  // a comment line")
@@ -64,7 +65,7 @@ def gen_class(lang, name, n_pub, n_priv, extras, blank, comment, start_line, sty
         if "async" in extras:
             L += ["  async apub() {", "    return 3;", "  }"]
             pub += 1
-        L.append("}")
+        L.append("};" if style == "class-expression" else "}")
         cmt = "//"
     else:  # rust: struct + impl blocks
         if style == "generic":
@@ -141,8 +142,8 @@ def make_harness(tier):
             n_priv = ctx.pick(f"npriv{c}", (0, 2) if not small else (2,))
             extras = ctx.pick(f"extras{c}", extras_opts if not small else extras_opts[-1:])
             fill = ctx.pick(f"fill{c}", ("plain", "blank+comment") if not small else ("blank+comment",))
-            style = ctx.pick(f"style{c}", {"python": ("plain",), "typescript": ("plain", "abstract", "exported", "hash-private", "modifier-private"),
-                                           "javascript": ("plain", "hash-private"), "rust": ("plain", "generic")}[lang]) if (c == 0 and (quick or (ov == "none" and nclasses == 1))) else "plain"
+            style = ctx.pick(f"style{c}", {"python": ("plain",), "typescript": ("plain", "abstract", "exported", "hash-private", "modifier-private", "class-expression"),
+                                           "javascript": ("plain", "hash-private", "class-expression"), "rust": ("plain", "generic")}[lang]) if (c == 0 and (quick or (ov == "none" and nclasses == 1))) else "plain"
             L, pub, loc, hl = gen_class(lang, name, n_pub, n_priv, extras, fill != "plain",
                                         fill != "plain", len(lines) + 1, style)
             if lang == "python" and c == 1 and (quick or (ov == "none" and classes[0][4] == extras_opts[0])):
